@@ -59,6 +59,19 @@ func (r *Rand) Int63() int64     { return int64(r.Uint64() >> 1) }
 func (r *Rand) Float64() float64 { return float64(r.Uint64()>>11) / (1 << 53) }
 func (r *Rand) Bool() bool       { return r.Uint64()&1 == 1 }
 
+// Perm returns a PRNG permutation of 0..n-1.
+func (r *Rand) Perm(n int) []int {
+	p := make([]int, n)
+	for i := range p {
+		p[i] = i
+	}
+	for i := n - 1; i > 0; i-- {
+		j := r.Intn(i + 1)
+		p[i], p[j] = p[j], p[i]
+	}
+	return p
+}
+
 // Chance is true with probability p.
 func (r *Rand) Chance(p float64) bool { return r.Float64() < p }
 
